@@ -926,7 +926,26 @@ def parse_as_ast(
         assert isinstance(ast_source, ast.AST)
         # The caller keeps its tree: the passes that follow edit the lambda in place, and the same
         # tree may be handed to another stream.
-        return lambda_unwrap(copy.deepcopy(ast_source))
+        return lambda_unwrap(_copy_of_tree(ast_source))
+
+
+def _copy_of_tree(node: ast.AST) -> ast.AST:
+    """A copy of a tree the user built. A node that carries something (the dataset, an executor,
+    query metadata) is the node of a query that was put into the tree - another stream's: it, and
+    what hangs on it, is kept as it is."""
+    if set(vars(node)) - set(node._fields) - set(node._attributes):
+        return node
+    new_node = copy.copy(node)
+    for field, value in ast.iter_fields(node):
+        if isinstance(value, list):
+            setattr(
+                new_node,
+                field,
+                [_copy_of_tree(v) if isinstance(v, ast.AST) else v for v in value],
+            )
+        elif isinstance(value, ast.AST):
+            setattr(new_node, field, _copy_of_tree(value))
+    return new_node
 
 
 def scan_for_metadata(a: ast.AST, callback: Callable[[ast.arg], None]):
